@@ -1332,3 +1332,59 @@ def equality_reads_verbatim_rule(ctx, rid, floor=40):
                    f'`{p}` is kept verbatim in {sorted(verb)} but equality reads only {sorted(fs & rd)}, computed from it: objects that differ in `{p}` can compare equal', ci.mod.rel, eq.lineno)
     if n == 0:
         raise AnalysisError(f'{rid}: no instance')
+
+
+def measurement_rebuild_rule(ctx, rid, prefixes, floor=1):
+    """A transformer that replaces a measurement by freshly built measurements carries the invert mask and the confusion map over (or refuses)."""
+    from ..flow import dominating_atoms
+    repo = ctx.repo
+    ctx.decided.append(f'{rid} a measurement re-created from the qubits of an existing measurement operation forwards or refuses its invert mask and confusion map')
+    ctx.rule(rid, 'measurements are re-created whole: where code under an is_measurement(<op>) / isinstance(<op>.gate, MeasurementGate) test builds new measurements (measure, measure_each, '
+             'MeasurementGate) from <op>.qubits, the same branch reads the invert mask (invert_mask / full_invert_mask) and the confusion_map of the old gate - to pass them on or to '
+             'refuse - otherwise the recorded bits change', floor=floor, style='EFF')
+    n = 0
+    for mod, ci, fn in repo.all_functions():
+        if mod.rel.endswith('_test.py') or not any(mod.rel.startswith(p) for p in prefixes):
+            continue
+        calls = [c for c in ast.walk(fn) if isinstance(c, ast.Call) and call_name(c).split('.')[-1] in ('measure', 'measure_each', 'MeasurementGate')]
+        if not calls:
+            continue
+        par = mod.parents()
+        for c in calls:
+            if isinstance(par.get(c), ast.Attribute):
+                continue   # measure(...).gate.key and the like: the call is consulted, not emitted
+            # the measurement operation this call re-creates: a name tested by a dominating measurement test, whose qubits feed the call
+            ops_tested = {}
+            for a, pol in dominating_atoms(par, c, fn):
+                if not pol:
+                    continue
+                for t in ast.walk(a):
+                    if isinstance(t, ast.Call) and call_name(t).split('.')[-1] == 'is_measurement' and t.args and isinstance(t.args[0], ast.Name):
+                        ops_tested[t.args[0].id] = a
+                    if isinstance(t, ast.Call) and call_name(t) == 'isinstance' and len(t.args) == 2 and 'MeasurementGate' in ast.unparse(t.args[1]) \
+                            and isinstance(t.args[0], ast.Attribute) and t.args[0].attr == 'gate' and isinstance(t.args[0].value, ast.Name):
+                        ops_tested[t.args[0].value.id] = a
+            if not ops_tested:
+                continue
+            # statement holding the call, plus loop targets over <op>.qubits
+            stmt = c
+            while stmt in par and not isinstance(stmt, ast.stmt):
+                stmt = par[stmt]
+            feeds = [o for o in ops_tested if any(isinstance(x, ast.Attribute) and x.attr == 'qubits' and isinstance(x.value, ast.Name) and x.value.id == o for x in ast.walk(stmt))]
+            if not feeds:
+                continue
+            o = feeds[0]
+            # the branch: the innermost If whose test holds the measurement test
+            test = ops_tested[o]
+            br = c
+            while br in par and not (isinstance(par[br], ast.If) and any(x is test for x in ast.walk(par[br].test))):
+                br = par[br]
+            iff = par.get(br)
+            body = iff.body if isinstance(iff, ast.If) else [stmt]
+            attrs = {x.attr for s_ in body for x in ast.walk(s_) if isinstance(x, ast.Attribute)}
+            n += 1
+            miss = [nm for nm, alts in (('invert mask', {'invert_mask', 'full_invert_mask'}), ('confusion map', {'confusion_map'})) if not (attrs & alts)]
+            ctx.ob(rid, f'{mod.name}.{(ci.name + ".") if ci else ""}{fn.name}:re-created-from-{o}', not miss, '' if not miss else
+                   f'`{ast.unparse(c)[:70]}` re-creates the measurement `{o}` from its qubits, but the branch never looks at its {" / ".join(miss)}', mod.rel, c.lineno)
+    if n == 0:
+        raise AnalysisError(f'{rid}: no re-created measurement found under {prefixes}')
